@@ -1200,7 +1200,9 @@ def classify(judgement, judge, spec, items, st, dec, model, depth=0):
         if it2[0] in ('map', 'array') and it2[1] is not None and not cross:
             # no component judged through this same judgement explains it: the member/entry types of
             # typed map and array tests are judged by other code than a top-level type
-            return pre + 'item/map-or-array(typed)/%s' % direction(d1)
+            member = it2[2] if it2[0] == 'map' else it2[1]
+            mshape = 'empty-sequence()' if member[0] == 'empty' else key_shape(member[1], True)
+            return pre + 'item/map-or-array(typed)/member:%s/%s' % (mshape, direction(d1))
         return pre + 'item/%s/%s%s' % (key_shape(it2), direction(d1), cross)
     # every single item is judged correctly: the sequence / occurrence handling is at fault
     if model is False:
